@@ -9,7 +9,7 @@ CONSTANTS Depth, EmitOn
 Tp == SPrint(Lit(N(0)))
 Cnt(L) == IF L = 1 THEN "i" ELSE IF L = 2 THEN "j" ELSE IF L = 3 THEN "k" ELSE "m"
 CondsOut == { <<"t", Lit(VBool(TRUE))>>, <<"f", Lit(VBool(FALSE))>>, <<"0", Lit(N(0))>>, <<"e", Lit(S(""))>>,
-              <<"n", Lit(VNil)>>, <<"s", Lit(S("a"))>>, <<"a", Arr(<<>>)>> }
+              <<"n", Lit(VNil)>>, <<"s", Lit(S("a"))>>, <<"a", Arr(<<>>)>>, <<"s0", Lit(S("0"))>>, <<"sb0", Lit(VStr(<<2534, 46, 2534>>))>> }     \* "0" and its Bangla spelling are non-empty strings
 Conds(L) == IF L = 0 THEN CondsOut
             ELSE { <<"t", Lit(VBool(TRUE))>>, <<"0", Lit(N(0))>>, <<"e", Lit(S(""))>>, <<"a", Arr(<<>>)>>,
                    <<"lt2", Bin("<", Id(Cnt(L)), Lit(N(2)))>>, <<"eq1", Bin("==", Id(Cnt(L)), Lit(N(1)))>> }
@@ -17,13 +17,13 @@ Conds(L) == IF L = 0 THEN CondsOut
 Inc(x) == SExpr(Asg(x, Bin("+", Id(x), Lit(N(1)))))
 WhileLoop(L, body) ==
   SBlock(<< SVar(Cnt(L), Lit(N(0))),
-            SWhile(Bin("<", Id(Cnt(L)), Lit(N(3))), SBlock(<<Inc(Cnt(L)), Tp, body, Tp>>)),
+            SWhile(Bin("<", Id(Cnt(L)), Lit(N(3))), SBlock(<<Inc(Cnt(L)), SVar("v" \o Cnt(L), Id(Cnt(L))), Tp, body, Tp>>)),      \* vX: declared afresh in every iteration
             Tp, SPrint(Id(Cnt(L))) >>)          \* the counter as the loop left it
 ForLoop(L, v, body) ==
   LET x == Cnt(L)  hasInit == v % 2 = 1  hasCond == (v \div 2) % 2 = 1  hasIncr == (v \div 4) % 2 = 1
       b == SBlock( (IF hasIncr THEN <<>> ELSE <<Inc(x)>>)
                    \o (IF hasCond THEN <<>> ELSE <<SIf(Bin(">=", Id(x), Lit(N(3))), SBreak, None)>>)
-                   \o <<Tp, body, Tp>> )
+                   \o <<SVar("v" \o x, Id(x)), Tp, body, Tp>> )
       f == SFor(IF hasInit THEN SVar(x, Lit(N(0))) ELSE None,
                 IF hasCond THEN Bin("<", Id(x), Lit(N(3))) ELSE None,
                 IF hasIncr THEN Asg(x, Bin("+", Id(x), Lit(N(1)))) ELSE None, b)
